@@ -81,6 +81,18 @@ impl UVec {
     pub fn is_zero(&self) -> (r: bool) ensures r == Dist::vzero(self.vv()) { unimplemented!() }
     #[verifier::external_body]
     pub fn clone(&self) -> (r: UVec) ensures r.vv() == self.vv() { unimplemented!() }
+    /// the decoded components, in order
+    #[verifier::external_body]
+    pub fn iter(&self) -> (r: UVecIter) { unimplemented!() }
+}
+/// `UnalignedVector::iter()`: only what a comparison of two of them can tell is modelled, and that is nothing about the stored
+/// bytes: `Iterator::eq` is IEEE equality of the components (0.0 == -0.0, NaN != NaN), not identity of the encodings
+pub struct UVecIter { x: u8 }
+impl UVecIter {
+    #[verifier::external_body]
+    pub fn eq(self, other: UVecIter) -> (r: bool) { unimplemented!() }
+    #[verifier::external_body]
+    pub fn ne(self, other: UVecIter) -> (r: bool) { unimplemented!() }
 }
 pub struct UnalignedVector { }
 impl UnalignedVector {
@@ -251,6 +263,9 @@ pub fn transpose_<T>(x: Option<heed::Result<T>>) -> (r: heed::Result<Option<T>>)
 {
     match x { None => Ok(None), Some(Ok(v)) => Ok(Some(v)), Some(Err(e)) => Err(e) }
 }
+/// `Option::<Result<T, E>>::transpose` where rule R6a did not apply (a `.next()` at the end of a method chain)
+pub assume_specification<T, E>[core::option::Option::<core::result::Result<T, E>>::transpose](x: Option<core::result::Result<T, E>>) -> (r: core::result::Result<Option<T>, E>)
+    ensures match x { None => r == Ok::<Option<T>, E>(None), Some(Ok(v)) => r == Ok::<Option<T>, E>(Some(v)), Some(Err(e)) => r == Err::<Option<T>, E>(e) };
 /// rule R7 target for `.map(|opt| opt.is_some()).map_err(Into::into)`
 pub fn map_is_some_into_(x: heed::Result<Option<()>>) -> (r: Result<bool>)
     ensures match x { Ok(o) => r == Ok::<bool, Error>(o is Some), Err(e) => r == Err::<bool, Error>(e) }
@@ -376,6 +391,42 @@ impl<DC: DataCodec> DatabaseG<DC> {
             Ok(None) => !rtxn.view().contains_key(key.a()),
             Err(_) => true }
     { unimplemented!() }
+    /// the entry with the least key >= `key` (heed: MDB_SET_RANGE)
+    #[verifier::external_body]
+    pub fn get_greater_than_or_equal_to(&self, rtxn: &Txn, key: &Key) -> (r: heed::Result<Option<(Key, DC::DItem)>>)
+        ensures is_heed(r), match r {
+            Ok(Some((k, n))) => rtxn.view().contains_key(k.a()) && k._padding == 0 && akey_le(key.a(), k.a()) && DC::dec_ok(&n, rtxn.view()[k.a()])
+                && (forall|o: AKey| #![trigger rtxn.view().contains_key(o)] rtxn.view().contains_key(o) && akey_le(key.a(), o) ==> akey_le(k.a(), o)),
+            Ok(None) => forall|o: AKey| #![trigger rtxn.view().contains_key(o)] rtxn.view().contains_key(o) ==> !akey_le(key.a(), o),
+            Err(_) => true }
+    { unimplemented!() }
+    /// the entry with the least key > `key`
+    #[verifier::external_body]
+    pub fn get_greater_than(&self, rtxn: &Txn, key: &Key) -> (r: heed::Result<Option<(Key, DC::DItem)>>)
+        ensures is_heed(r), match r {
+            Ok(Some((k, n))) => rtxn.view().contains_key(k.a()) && k._padding == 0 && akey_lt(key.a(), k.a()) && DC::dec_ok(&n, rtxn.view()[k.a()])
+                && (forall|o: AKey| #![trigger rtxn.view().contains_key(o)] rtxn.view().contains_key(o) && akey_lt(key.a(), o) ==> akey_le(k.a(), o)),
+            Ok(None) => forall|o: AKey| #![trigger rtxn.view().contains_key(o)] rtxn.view().contains_key(o) ==> !akey_lt(key.a(), o),
+            Err(_) => true }
+    { unimplemented!() }
+    /// the entry with the greatest key <= `key`
+    #[verifier::external_body]
+    pub fn get_lower_than_or_equal_to(&self, rtxn: &Txn, key: &Key) -> (r: heed::Result<Option<(Key, DC::DItem)>>)
+        ensures is_heed(r), match r {
+            Ok(Some((k, n))) => rtxn.view().contains_key(k.a()) && k._padding == 0 && akey_le(k.a(), key.a()) && DC::dec_ok(&n, rtxn.view()[k.a()])
+                && (forall|o: AKey| #![trigger rtxn.view().contains_key(o)] rtxn.view().contains_key(o) && akey_le(o, key.a()) ==> akey_le(o, k.a())),
+            Ok(None) => forall|o: AKey| #![trigger rtxn.view().contains_key(o)] rtxn.view().contains_key(o) ==> !akey_le(o, key.a()),
+            Err(_) => true }
+    { unimplemented!() }
+    /// the entry with the greatest key < `key`
+    #[verifier::external_body]
+    pub fn get_lower_than(&self, rtxn: &Txn, key: &Key) -> (r: heed::Result<Option<(Key, DC::DItem)>>)
+        ensures is_heed(r), match r {
+            Ok(Some((k, n))) => rtxn.view().contains_key(k.a()) && k._padding == 0 && akey_lt(k.a(), key.a()) && DC::dec_ok(&n, rtxn.view()[k.a()])
+                && (forall|o: AKey| #![trigger rtxn.view().contains_key(o)] rtxn.view().contains_key(o) && akey_lt(o, key.a()) ==> akey_le(o, k.a())),
+            Ok(None) => forall|o: AKey| #![trigger rtxn.view().contains_key(o)] rtxn.view().contains_key(o) ==> !akey_lt(o, key.a()),
+            Err(_) => true }
+    { unimplemented!() }
     #[verifier::external_body]
     pub fn put(&self, wtxn: &mut Txn, key: &Key, v: &DC::EItem) -> (r: heed::Result<()>)
         ensures put_post(r, old(wtxn).view(), final(wtxn).view(), key.a(), DC::enc_val(v))
@@ -411,7 +462,37 @@ impl<DC: DataCodec> DatabaseG<DC> {
     pub fn len(&self, rtxn: &Txn) -> (r: heed::Result<u64>)
         ensures is_heed(r), r matches Ok(n) ==> n == rtxn.view().dom().len()
     { unimplemented!() }
+    #[verifier::external_body]
+    pub fn is_empty(&self, rtxn: &Txn) -> (r: heed::Result<bool>)
+        ensures is_heed(r), r matches Ok(b) ==> b == (rtxn.view().dom().len() == 0)
+    { unimplemented!() }
+    /// the entry with the least key of the whole database
+    #[verifier::external_body]
+    pub fn first(&self, rtxn: &Txn) -> (r: heed::Result<Option<(Key, DC::DItem)>>)
+        ensures is_heed(r), match r {
+            Ok(Some((k, n))) => rtxn.view().contains_key(k.a()) && k._padding == 0 && DC::dec_ok(&n, rtxn.view()[k.a()])
+                && (forall|o: AKey| #![trigger rtxn.view().contains_key(o)] rtxn.view().contains_key(o) ==> akey_le(k.a(), o)),
+            Ok(None) => forall|o: AKey| #![trigger rtxn.view().contains_key(o)] !rtxn.view().contains_key(o),
+            Err(_) => true }
+    { unimplemented!() }
+    /// the entry with the greatest key of the whole database
+    #[verifier::external_body]
+    pub fn last(&self, rtxn: &Txn) -> (r: heed::Result<Option<(Key, DC::DItem)>>)
+        ensures is_heed(r), match r {
+            Ok(Some((k, n))) => rtxn.view().contains_key(k.a()) && k._padding == 0 && DC::dec_ok(&n, rtxn.view()[k.a()])
+                && (forall|o: AKey| #![trigger rtxn.view().contains_key(o)] rtxn.view().contains_key(o) ==> akey_le(o, k.a())),
+            Ok(None) => forall|o: AKey| #![trigger rtxn.view().contains_key(o)] !rtxn.view().contains_key(o),
+            Err(_) => true }
+    { unimplemented!() }
     // -- scans (read only)
+    #[verifier::external_body]
+    pub fn rev_prefix_iter(&self, rtxn: &Txn, p: &Prefix) -> (r: heed::Result<RoIter<DC>>)
+        ensures is_heed(r), r matches Ok(it) ==> it.wf_sel(rtxn.view(), Sel::Pre(*p), true) && it.pos@ == 0 && it.faulty@ == rtxn.read_faulty()
+    { unimplemented!() }
+    #[verifier::external_body]
+    pub fn rev_iter(&self, rtxn: &Txn) -> (r: heed::Result<RoIter<DC>>)
+        ensures is_heed(r), r matches Ok(it) ==> it.wf_sel(rtxn.view(), Sel::Rng(Bound::Unbounded, Bound::Unbounded), true) && it.pos@ == 0 && it.faulty@ == rtxn.read_faulty()
+    { unimplemented!() }
     #[verifier::external_body]
     pub fn prefix_iter(&self, rtxn: &Txn, p: &Prefix) -> (r: heed::Result<RoIter<DC>>)
         ensures is_heed(r), r matches Ok(it) ==> it.wf(rtxn.view(), *p) && it.pos@ == 0 && it.faulty@ == rtxn.read_faulty()
